@@ -413,13 +413,42 @@ def _wire_junk(spec, ev, tcp, kw):
             raise dns.query.UnexpectedSource("reply from an unexpected source")
 
 
-def _wire_finish(w, q, spec, tag, ev, tcp, kw):
+def doc_accept(spec):
+    """the documented acceptance of a reply (RFC 1035 matching as dns.message documents `is_response`): a response (QR) that
+    echoes the question — or carries none at all when its rcode is FORMERR, SERVFAIL, NOTIMP or REFUSED"""
+    qc = spec.get("qc", 1)
+    return bool(spec.get("qr", 1)) and (qc == 1 or (qc == 0 and spec["rcode"] in (1, 2, 4, 5)))
+
+
+def _wire_decide(w, q, spec, tag, ev, tcp, kw):
+    """what the transport does with the scripted reply: ('msg', m) | ('raise', exc) | ('wait', exc) (keep waiting until the
+    timeout, then exc).  Whether a decodable reply is *the* response is decided, as in dns.query, by the real
+    `query.is_response(reply)`; what the documentation says it should be is recorded next to it."""
     if tag == "trunc" and not tcp and not kw.get("raise_on_truncation", False):
         ev["tag"], ev["junk_leak"] = "rc0", "truncation-not-raised"
         m = dns.message.make_response(q)
         m.flags |= dns.flags.TC
-        return m
-    return w.finish(q, spec, tag, ev)
+        return ("msg", m)
+    if tag is not None:
+        try:
+            w.finish(q, spec, tag, ev)
+        except BaseException as e:
+            if _harness_signal(e):
+                raise
+            return ("raise", e)
+    m = w.finish(q, spec, None, ev)
+    want = doc_accept(spec)
+    ev["want_tag"] = ev["tag"] if want else ("form" if tcp else "timeout")
+    if not want:  # the model is told the documented outcome of this step on this transport
+        w.tokens[ev["pos"]] = f"x:form:{spec['d']}" if tcp else "x:timeout:0"
+    if q.is_response(m):
+        return ("msg", m)
+    ev.pop("resp", None)
+    if tcp or not kw.get("ignore_errors", False):
+        ev["tag"], ev["excname"] = "form", "BadResponse"
+        return ("raise", dns.query.BadResponse())
+    ev["tag"], ev["excname"] = "timeout", "Timeout"  # ignored: the receive loop waits on until the timeout
+    return ("wait", dns.exception.Timeout(timeout=1.0))
 
 
 def _wire_sync(tcp):
@@ -429,7 +458,13 @@ def _wire_sync(tcp):
         ev["kw"] = dict(kw)
         _wire_junk(spec, ev, tcp, kw)
         w.clock.advance(dur)
-        return _wire_finish(w, q, spec, tag, ev, tcp, kw)
+        what, x = _wire_decide(w, q, spec, tag, ev, tcp, kw)
+        if what == "msg":
+            return x
+        if what == "wait":
+            w.clock.advance(max(ev["to"] - dur, 0))
+            ev["dur"] = max(ev["to"], dur)
+        raise x
     return fake
 
 
@@ -441,7 +476,14 @@ def _wire_async(tcp):
         _wire_junk(spec, ev, tcp, kw)
         if dur > 0:
             await asyncio.sleep(dur / 1000.0)
-        return _wire_finish(w, q, spec, tag, ev, tcp, kw)
+        what, x = _wire_decide(w, q, spec, tag, ev, tcp, kw)
+        if what == "msg":
+            return x
+        if what == "wait":
+            if ev["to"] - dur > 0:
+                await asyncio.sleep((ev["to"] - dur) / 1000.0)
+            ev["dur"] = max(ev["to"], dur)
+        raise x
     return fake
 
 
@@ -1097,6 +1139,11 @@ def oracle(ctx, case, obs, rep):
         # ---- every query carries the caller's source address/port and goes to the port configured for that server
         for e in queries:
             want_str = f"Do53:{sid_addr(e['sid'])}@{ns_port(e['sid'])}" if cfg.get("route") in ("str", "wire") else f"scripted:{e['sid']}"
+            if e.get("want_tag") and e["tag"] != e["want_tag"]:
+                fail("transport/acceptance", f"{where}: server {e['sid']} ({'TCP' if e['tcp'] else 'UDP'}) sent a reply with rcode {e['spec'].get('rcode')}, "
+                     f"QR={e['spec'].get('qr', 1)}, {e['spec'].get('qc', 1)} question(s); by the documented matching rules the query's outcome is "
+                     f"'{e['want_tag']}', the library made it '{e['tag']}'")
+                break
             if e.get("junk_leak"):
                 fail("transport/junk-datagram-not-ignored", f"{where}: server {e['sid']} ({'TCP' if e['tcp'] else 'UDP'}): '{e['junk_leak']}' "
                      f"reached the resolver because the nameserver object called the transport with {e.get('kw')}")
@@ -1304,7 +1351,7 @@ def oracle(ctx, case, obs, rep):
                 base = (e["nsstr"], e["tcp"], ns_port(e["sid"]))
                 if e["tag"] in EXC_POOL:
                     pool = EXC_POOL[e["tag"]]
-                    want.append(base + (type(pool[e["spec"].get("v", 0) % len(pool)]()).__name__, False))
+                    want.append(base + (e.get("excname") or type(pool[e["spec"].get("v", 0) % len(pool)]()).__name__, False))
                 elif c[0] == "broken" and e["resp"]["rcode"] in (NOERROR, NXDOMAIN):
                     want.append(base + (ref_chain(e["resp"]["msg"], unhexl(e["cand"]), e["qcls"], e["qty"])[1], True))
                 elif c[0] in ("broken", "soft"):
@@ -1982,12 +2029,17 @@ def gen_run(ctx, rng):
     case = {"kind": "run", "cfg": cfg, "reqs": reqs, "script": [], "profile": profile}
 
     abort_at = rng.below(6) if rng.chance(1, 12) else None
+    hdr_all = rng.choice([1, 2, 4, 5, 4]) if (cfg.get("route") == "wire" and rng.chance(1, 4)) else None  # every server answers alike
 
     def gen(world, ns, request, timeout_ms, tcp):
         q = request.question[0]
         if abort_at is not None and world.pos == abort_at:
             return {"k": "x", "e": "abort", "v": 0, "d": rng.choice([0, 1, 5])}
         st = gen_outcome(rng, profile, cfg, list(q.name.labels), int(q.rdclass), int(q.rdtype), timeout_ms)
+        if cfg.get("route") == "wire" and (hdr_all is not None or rng.chance(1, 4)):
+            # a header-only reply (no question section): a response for FORMERR/SERVFAIL/NOTIMP/REFUSED, not one otherwise
+            st = {"k": "r", "d": rng.choice([0, 1, 5, 50]), "rcode": hdr_all if hdr_all is not None else rng.choice([0, 1, 2, 3, 4, 4, 5, 5, 9]),
+                  "qr": 1, "qc": 0, "an": [], "au": [], "hdr": 1}
         if cfg.get("route") == "wire" and rng.chance(1, 2):
             # junk datagrams before the reply: the transport is told to ignore them, the outcome is the scripted one
             st["pre"] = [rng.choice(["garbage", "badid", "badsrc"]) for _ in range(rng.range(1, 3))]
